@@ -306,6 +306,72 @@ func (P) exec(line string) string {
 			return "err"
 		}
 		return hex.EncodeToString(h)
+	case "tapopt": // exported taproot entry points, full option matrix
+		// tapopt <tx> <spent> <idx> <ht> <cache c|n> <fetcher m|k|g> <leaf x|ver:script> <opts>
+		tx := decTx(f[2])
+		spent := decSpent(f[3])
+		idx := int(atoi(f[4]))
+		ht := txscript.SigHashType(uint32(atoi(f[5])))
+		var fetcher txscript.PrevOutputFetcher
+		switch f[7] {
+		case "k": // all spent outputs equal: the canned fetcher
+			fetcher = txscript.NewCannedPrevOutputFetcher(spent[0].PkScript, spent[0].Value)
+		case "g": // multi fetcher assembled with AddPrevOut + Merge
+			a, b := txscript.NewMultiPrevOutFetcher(nil), txscript.NewMultiPrevOutFetcher(nil)
+			seen := map[wire.OutPoint]bool{}
+			for i, in := range tx.TxIn {
+				if seen[in.PreviousOutPoint] {
+					continue
+				}
+				seen[in.PreviousOutPoint] = true
+				if i%2 == 0 {
+					a.AddPrevOut(in.PreviousOutPoint, spent[i])
+				} else {
+					b.AddPrevOut(in.PreviousOutPoint, spent[i])
+				}
+			}
+			a.Merge(b)
+			fetcher = a
+		default:
+			fetcher = mkFetcher(tx, spent)
+		}
+		var sh *txscript.TxSigHashes
+		if f[6] == "c" {
+			sh = txscript.NewTxSigHashes(tx, fetcher)
+		}
+		var h []byte
+		var err error
+		if f[8] == "x" {
+			h, err = txscript.CalcTaprootSignatureHash(sh, ht, tx, idx, fetcher)
+		} else {
+			p := strings.Split(f[8], ":")
+			leaf := txscript.NewTapLeaf(txscript.TapscriptLeafVersion(atoi(p[0])), unhx(p[1]))
+			var opts []txscript.TaprootSigHashOption
+			if f[9] != "-" {
+				for _, o := range strings.Split(f[9], ",") {
+					q := strings.Split(o, ".")
+					switch q[0] {
+					case "A":
+						opts = append(opts, txscript.WithAnnex(unhx(q[1])))
+					case "B":
+						opts = append(opts, txscript.WithBaseTapscriptVersion(uint32(atoi(q[1])), unhx(q[2])))
+					}
+				}
+			}
+			h, err = txscript.CalcTapscriptSignaturehash(sh, ht, tx, idx, fetcher, leaf, opts...)
+		}
+		if err != nil {
+			return "err"
+		}
+		return hex.EncodeToString(h)
+	case "witapinil": // exported CalcWitnessSigHash with a nil midstate
+		tx := decTx(f[2])
+		h, err := txscript.CalcWitnessSigHash(unhx(f[5]), nil, txscript.SigHashType(uint32(atoi(f[4]))), tx,
+			int(atoi(f[3])), atoi(f[6]))
+		if err != nil {
+			return "err"
+		}
+		return hex.EncodeToString(h)
 	case "hashcache":
 		return execHashCache(f[2:])
 	case "tap":
@@ -854,6 +920,95 @@ func (P) Generate(g *core.Gen) {
 			}
 		}
 		g.Case("tap-api", idx < nIn, fmt.Sprintf("C07 tapapi %s %s %d %d %s %s", encTx(tx), encSpent(spent), idx, ht, annex, leaf))
+	}
+
+	// ---- exported taproot entry points: every option combination a caller can pass, both orders,
+	// annex lengths around the compact-size boundaries, with and without a supplied midstate,
+	// every fetcher implementation
+	annexLens := []int{0, 1, 2, 252, 253, 254, 65535, 65536}
+	codeSeps := []uint32{0, 1, 2, 7, 0xfffffffe, 0xffffffff, 0x80000000, 65536}
+	for k := 0; k < g.N(900, 12000); k++ {
+		nIn, nOut := 1+r.Intn(3), r.Intn(3)
+		tx, spent := randTx(r, nIn, nOut)
+		for i, in := range tx.TxIn { // distinct outpoints: every fetcher sees the same map
+			in.PreviousOutPoint.Hash[0] = byte(i)
+			in.PreviousOutPoint.Hash[1] = 0x77
+		}
+		if r.Chance(4, 5) {
+			forceKind(r, spent, true)
+		}
+		fm := []string{"m", "g", "k"}[r.Intn(3)]
+		if fm == "k" {
+			for i := range spent {
+				spent[i] = spent[0]
+			}
+		}
+		idx := r.Intn(nIn)
+		if r.Chance(1, 12) {
+			idx = nIn
+		}
+		ht := validTap[r.Intn(len(validTap))]
+		if r.Chance(1, 10) {
+			ht = interestingHT[r.Intn(len(interestingHT))]
+		}
+		cache := "c"
+		if r.Chance(1, 5) {
+			cache = "n"
+		}
+		leaf, opts := "x", "-"
+		if r.Chance(5, 6) {
+			script := randScriptCode(r, randSig(r), false)
+			leaf = fmt.Sprintf("%d:%s", r.Pick(0xc0, 0xc0, 0xc0, 0xc2), hx(script))
+			mkA := func() string {
+				n := annexLens[r.Intn(6)] // the two 64 KiB ones are drawn rarely below
+				if r.Chance(1, 40) {
+					n = annexLens[6+r.Intn(2)]
+				}
+				a := r.Bytes(n)
+				if n > 0 && r.Bool() {
+					a[0] = 0x50
+				}
+				return "A." + hx(a)
+			}
+			mkB := func() string {
+				lh := r.Bytes(32)
+				if r.Chance(1, 6) {
+					lh = r.Bytes(int(r.Pick(0, 31, 33)))
+				}
+				return fmt.Sprintf("B.%d.%s", codeSeps[r.Intn(len(codeSeps))], hx(lh))
+			}
+			var os []string
+			switch k % 8 {
+			case 0:
+			case 1:
+				os = []string{mkA()}
+			case 2:
+				os = []string{mkB()}
+			case 3:
+				os = []string{mkA(), mkB()}
+			case 4:
+				os = []string{mkB(), mkA()}
+			case 5:
+				os = []string{mkB(), mkB()}
+			case 6:
+				os = []string{mkA(), mkB(), mkA()}
+			case 7:
+				os = []string{mkB(), mkA(), mkB()}
+			}
+			if len(os) > 0 {
+				opts = strings.Join(os, ",")
+			}
+		}
+		g.Case("tap-api-options", idx < nIn, fmt.Sprintf("C07 tapopt %s %s %d %d %s %s %s %s", encTx(tx), encSpent(spent), idx, ht, cache, fm, leaf, opts))
+	}
+	// exported CalcWitnessSigHash with a nil midstate (parse check first, then panic unless unread)
+	for k := 0; k < g.N(300, 6000); k++ {
+		nIn, nOut := 1+r.Intn(3), r.Intn(4)
+		tx, _ := randTx(r, nIn, nOut)
+		idx := r.Intn(nIn + 1)
+		ht := []uint32{0x82, 0x83, 0x81, 2, 3, 1, 0xa2, 0xc3}[r.Intn(8)]
+		sub := randScriptCode(r, randSig(r), r.Chance(1, 4))
+		g.Case("wit-api-nil-midstate", idx < nIn, fmt.Sprintf("C07 witapinil %s %d %d %s %d", encTx(tx), idx, ht, hx(sub), int64(r.U64()%100000)))
 	}
 
 	// ---- nil midstate: panic unless the digest never reads it
